@@ -7,10 +7,13 @@
 (*   "frames"   input/pickle.go  4-byte length -> peek prefix -> chunk loop -> *)
 (*                               decode/dispatch, per connection               *)
 (* each consuming ANY segmentation of the stream (a read returns 1..all of the *)
-(* remaining symbols; the last read may come together with EOF or a timeout,  *)
-(* or the terminating condition comes alone).  TLC checks them against the     *)
-(* level-A operators of FramingOps (Lines / Acceptable / Frames) for every     *)
-(* stream of up to MaxLen symbols and every segmentation.                      *)
+(* remaining symbols; the last read may come together with EOF, or EOF comes   *)
+(* alone; for the line readers a read timeout may strike at ANY point of the   *)
+(* stream, together with a piece of data or alone, and the rest of the stream  *)
+(* -- the tail -- is what the network would deliver to reads issued after the  *)
+(* error).  TLC checks them against the level-A operators of FramingOps        *)
+(* (Lines / Acceptable / AcceptableAt / Frames) for every stream of up to      *)
+(* MaxLen symbols, every segmentation and every position of the error.         *)
 EXTENDS FramingOps, TLC, Json
 
 CONSTANTS MaxLen,    \* line readers: streams of 0..MaxLen symbols over {x, y, CR, LF}
@@ -25,11 +28,13 @@ VARIABLES Reader, Cap, Mutant,   \* chosen in the initial state, then fixed
           n,         \* symbols received so far (a prefix of stream)
           lo,        \* first received position not yet consumed by the reader
           out,       \* dispatched so far
-          st,        \* "run" | "last" (terminating condition seen, buffer not yet drained) | "done"
-          term,      \* the terminating condition
+          st,        \* "run" | "last" (terminating condition seen, buffer not yet drained) | "done";
+                     \* "run2" | "last2": the same after the error, for a reader that reads on (deviation only)
+          term,      \* the terminating condition (the first one: EOF, or the read error)
+          cut,       \* symbols received when `term` came (meaningful once term # "none"); stream[cut+1..] is the tail
           phase,     \* frames: "hdr" | "peek" | "body"; when done: "end" | "error" | "any" | "toolong"
           need, acc  \* frames: payload symbols still missing / collected
-vars == <<Reader, Cap, Mutant, stream, n, lo, out, st, term, phase, need, acc>>
+vars == <<Reader, Cap, Mutant, stream, n, lo, out, st, term, cut, phase, need, acc>>
 fixed == <<Reader, Cap, Mutant, stream>>
 
 LStreams == UNION {[1..k -> Sym] : k \in 0..MaxLen}
@@ -38,24 +43,32 @@ FStreams == UNION {[1..k -> {0, 1}] : k \in 0..MaxLenF}
 Init == /\ Reader \in Readers /\ Mutant \in Mutants
         /\ Cap \in (IF Reader = "frames" THEN {0} ELSE Caps)
         /\ stream \in (IF Reader = "frames" THEN FStreams ELSE LStreams)
-        /\ n = 0 /\ lo = 1 /\ out = <<>> /\ st = "run" /\ term = "none"
+        /\ n = 0 /\ lo = 1 /\ out = <<>> /\ st = "run" /\ term = "none" /\ cut = 0
         /\ phase = "hdr" /\ need = 0 /\ acc = <<>>
 
 \* one read of the underlying connection: any non-empty piece of what is still to come; the piece
-\* that completes the stream may arrive together with the terminating condition, or the condition
-\* arrives alone afterwards
-DataTerms  == IF Reader = "frames" THEN {"dataeof"} ELSE {"dataeof", "datatimeout"}
-AloneTerms == IF Reader = "frames" THEN {"eof"} ELSE {"eof", "timeout"}
-Read == /\ st = "run"
-        /\ \/ \E k \in 1..(Len(stream) - n) :
-                /\ n' = n + k
-                /\ IF n + k = Len(stream)
-                   THEN \E t \in DataTerms \cup {"none"} :
-                            /\ term' = t
-                            /\ st' = IF t = "none" THEN "run" ELSE "last"
-                   ELSE term' = term /\ st' = st
-           \/ /\ n = Len(stream) /\ n' = n
-              /\ \E t \in AloneTerms : term' = t /\ st' = "last"
+\* that completes the stream may arrive together with EOF, or EOF arrives alone afterwards; a read of
+\* a line reader may fail with a timeout at any point (together with a piece or alone) -- what was
+\* not yet received then is the tail.  After the error (st = "run2", only a reader that reads on
+\* gets there) the reads deliver the tail, then EOF (TimeoutConn re-arms the deadline per Read).
+DataTerms(m)  == IF Reader = "frames" THEN (IF m = Len(stream) THEN {"dataeof"} ELSE {})
+                 ELSE (IF m = Len(stream) THEN {"dataeof"} ELSE {}) \cup {"datatimeout"}
+AloneTerms(m) == IF Reader = "frames" THEN (IF m = Len(stream) THEN {"eof"} ELSE {})
+                 ELSE (IF m = Len(stream) THEN {"eof"} ELSE {}) \cup {"timeout"}
+Read == \/ /\ st = "run"
+           /\ \/ \E k \in 1..(Len(stream) - n) :
+                   /\ n' = n + k
+                   /\ \E t \in DataTerms(n + k) \cup {"none"} :
+                        /\ term' = t
+                        /\ st' = IF t = "none" THEN "run" ELSE "last"
+                        /\ cut' = IF t = "none" THEN cut ELSE n + k
+              \/ /\ n' = n
+                 /\ \E t \in AloneTerms(n) : term' = t /\ st' = "last" /\ cut' = n
+        \/ /\ st = "run2" /\ UNCHANGED <<term, cut>>
+           /\ \/ \E k \in 1..(Len(stream) - n) :
+                   /\ n' = n + k
+                   /\ st' \in (IF n + k = Len(stream) THEN {"run2", "last2"} ELSE {"run2"})
+              \/ n = Len(stream) /\ n' = n /\ st' = "last2"
 
 Avail == n - lo + 1
 
@@ -67,59 +80,64 @@ FirstT(hi) == CHOOSE i \in lo..hi : IsT(stream[i]) /\ \A j \in lo..(i - 1) : ~Is
 
 \* bufio.Scanner: emit every complete token of the buffer, read only when there is none, at the
 \* terminating condition (EOF or any read error) emit what is left
-ScEmit == /\ st \in {"run", "last"} /\ HasT(n)
+ScEmit == /\ st # "done" /\ HasT(n)
           /\ LET p == FirstT(n)  tok == DropCR(stream, lo, p - 1) IN
                /\ out' = out \o (IF Mutant = "dup" /\ p = n THEN <<tok, tok>> ELSE <<tok>>)
                /\ lo' = p + 1
-          /\ UNCHANGED <<fixed, n, st, term, phase, need, acc>>
-ScTooLong == /\ st \in {"run", "last"} /\ ~HasT(n) /\ Cap > 0 /\ Avail >= Cap
+          /\ UNCHANGED <<fixed, n, st, term, cut, phase, need, acc>>
+ScTooLong == /\ st # "done" /\ ~HasT(n) /\ Cap > 0 /\ Avail >= Cap
              /\ st' = "done" /\ phase' = "toolong"
-             /\ UNCHANGED <<fixed, n, lo, out, term, need, acc>>
+             /\ UNCHANGED <<fixed, n, lo, out, term, cut, need, acc>>
 ScRead == /\ ~HasT(n) /\ (Cap = 0 \/ Avail < Cap) /\ Read
           /\ IF Mutant = "partial_at_refill" /\ lo <= n
              THEN out' = Append(out, <<lo, n>>) /\ lo' = n + 1
              ELSE UNCHANGED <<out, lo>>
           /\ UNCHANGED <<fixed, phase, need, acc>>
-ScFinal == /\ st = "last" /\ ~HasT(n) /\ (Cap = 0 \/ Avail < Cap)
+\* the terminating condition ends the loop: the handler returns, nothing is read any more.  The
+\* deviation "read_on_after_error" (shaped after a ReadLine loop that drops the error which came
+\* with a partial line): the partial line is dispatched and the loop goes on reading
+ReadsOn == Mutant = "read_on_after_error" /\ st = "last" /\ term \in TimeoutTerms /\ lo <= n
+Finish == IF ReadsOn THEN st' = "run2" /\ phase' = phase ELSE st' = "done" /\ phase' = "end"
+ScFinal == /\ st \in {"last", "last2"} /\ ~HasT(n) /\ (Cap = 0 \/ Avail < Cap)
            /\ out' = IF lo <= n /\ Mutant # "drop_last" THEN Append(out, DropCR(stream, lo, n)) ELSE out
-           /\ lo' = n + 1 /\ st' = "done" /\ phase' = "end"
-           /\ UNCHANGED <<fixed, n, term, need, acc>>
+           /\ lo' = n + 1 /\ Finish
+           /\ UNCHANGED <<fixed, n, term, cut, need, acc>>
 ScNext == ScEmit \/ ScTooLong \/ ScRead \/ ScFinal
 
 \* bufio.Reader(Cap).ReadLine in a loop, every returned slice dispatched (isPrefix ignored)
 Win == IF Cap = 0 \/ lo + Cap - 1 > n THEN n ELSE lo + Cap - 1       \* the part of the input the buffer holds
-RlEmit == /\ st \in {"run", "last"} /\ HasT(Win)
+RlEmit == /\ st # "done" /\ HasT(Win)
           /\ LET p == FirstT(Win) IN out' = Append(out, DropCR(stream, lo, p - 1)) /\ lo' = p + 1
-          /\ UNCHANGED <<fixed, n, st, term, phase, need, acc>>
-RlFull == /\ st \in {"run", "last"} /\ Cap > 0 /\ Avail >= Cap /\ ~HasT(Win)
+          /\ UNCHANGED <<fixed, n, st, term, cut, phase, need, acc>>
+RlFull == /\ st # "done" /\ Cap > 0 /\ Avail >= Cap /\ ~HasT(Win)
           /\ LET b == lo + Cap - 1 IN
                IF stream[b] = "CR" /\ Cap > 1
                THEN out' = Append(out, <<lo, b - 1>>) /\ lo' = b        \* the CR is put back
                ELSE out' = Append(out, <<lo, b>>) /\ lo' = b + 1
-          /\ UNCHANGED <<fixed, n, st, term, phase, need, acc>>
+          /\ UNCHANGED <<fixed, n, st, term, cut, phase, need, acc>>
 RlRead == /\ ~HasT(Win) /\ (Cap = 0 \/ Avail < Cap) /\ Read
           /\ UNCHANGED <<fixed, lo, out, phase, need, acc>>
-RlFinal == /\ st = "last" /\ ~HasT(Win) /\ (Cap = 0 \/ Avail < Cap)
+RlFinal == /\ st \in {"last", "last2"} /\ ~HasT(Win) /\ (Cap = 0 \/ Avail < Cap)
            /\ out' = IF lo <= n THEN Append(out, <<lo, n>>) ELSE out       \* no CR stripping without LF
-           /\ lo' = n + 1 /\ st' = "done" /\ phase' = "end"
-           /\ UNCHANGED <<fixed, n, term, need, acc>>
+           /\ lo' = n + 1 /\ Finish
+           /\ UNCHANGED <<fixed, n, term, cut, need, acc>>
 RlNext == RlEmit \/ RlFull \/ RlRead \/ RlFinal
 
 ------------------------------------------------------------------------------
 \* pickle frame loop
-Done(ph) == st' = "done" /\ phase' = ph /\ UNCHANGED <<fixed, n, lo, out, term, need, acc>>
+Done(ph) == st' = "done" /\ phase' = ph /\ UNCHANGED <<fixed, n, lo, out, term, cut, need, acc>>
 FHdr == /\ phase = "hdr" /\ st # "done"
         /\ IF Avail >= 2
            THEN IF FLen(stream, lo) = 0 THEN Done("any")
                 ELSE /\ lo' = lo + 2 /\ need' = FLen(stream, lo) /\ phase' = "peek" /\ acc' = <<>>
-                     /\ UNCHANGED <<fixed, n, out, st, term>>
+                     /\ UNCHANGED <<fixed, n, out, st, term, cut>>
            ELSE IF st = "last"
                 THEN Done(IF Avail = 0 \/ Mutant = "hdr_eof_clean" THEN "end" ELSE "error")
                 ELSE Read /\ UNCHANGED <<fixed, lo, out, phase, need, acc>>
 FPeek == /\ phase = "peek" /\ st # "done"
          /\ IF Avail >= 1
             THEN IF stream[lo] = 0 /\ Mutant # "prefix_any" THEN Done("error")
-                 ELSE phase' = "body" /\ UNCHANGED <<fixed, n, lo, out, st, term, need, acc>>
+                 ELSE phase' = "body" /\ UNCHANGED <<fixed, n, lo, out, st, term, cut, need, acc>>
             ELSE IF st = "last" THEN Done("error")
                  ELSE Read /\ UNCHANGED <<fixed, lo, out, phase, need, acc>>
 FBody == /\ phase = "body" /\ st # "done"
@@ -131,7 +149,7 @@ FBody == /\ phase = "body" /\ st # "done"
                     /\ IF need = k
                        THEN out' = Append(out, acc2) /\ acc' = <<>> /\ phase' = "hdr"
                        ELSE acc' = acc2 /\ UNCHANGED <<out, phase>>
-                    /\ UNCHANGED <<fixed, n, st, term>>
+                    /\ UNCHANGED <<fixed, n, st, term, cut>>
             ELSE IF st = "last" THEN Done("error")
                  ELSE Read /\ UNCHANGED <<fixed, lo, out, phase, need, acc>>
 FNext == FHdr \/ FPeek \/ FBody
@@ -143,10 +161,12 @@ Spec == Init /\ [][Next]_vars
 \* properties
 InLimit == Cap = 0 \/ MaxLine(stream) <= Cap \/ Mutant = "claim_unlimited"
 
-\* C12: at the end exactly the lines of what was received, in order, once each; before the end
-\* never anything but complete lines (a metric split across reads is never dispatched in pieces)
+\* C12: at the end exactly the lines of what was received when the terminating condition came, in
+\* order, once each, and nothing of the tail (AcceptableAt: or else the lines of the whole stream);
+\* before the end never anything but complete lines (a metric split across reads -- or across a
+\* read error -- is never dispatched in pieces)
 LineBody == (Reader # "frames" /\ InLimit) =>
-            /\ st = "done" => out \in Acceptable(stream, term)
+            /\ st = "done" => out \in AcceptableAt(stream, cut, term)
             /\ st # "done" => IsPrefixOf(out, Terminated(SubSeq(stream, 1, n), 1, 1))
 
 \* C13 (framing part): exactly the complete well-formed frames before the first malformed one,
@@ -157,16 +177,26 @@ FrameBody == Reader = "frames" =>
                                 IF f.status = "any" THEN IsPrefixOf(f.out, out) /\ phase = "any"
                                 ELSE out = f.out /\ phase = f.status
 
+\* the reader models stop at the terminating condition: once a read returned EOF or an error nothing
+\* more is received, and nothing of the tail is ever dispatched
+StopsAtError == (Mutant = "" /\ term # "none") =>
+                /\ n = cut /\ st \in {"last", "done"}
+                /\ \A i \in 1..Len(out) : Reader # "frames" => out[i][2] <= cut
+
 LineOK  == Mutant = "" => LineBody
 FrameOK == Mutant = "" => FrameBody
 
 \* non-vacuity (Framing_nv.cfg): every named deviation must break LineBody or FrameBody somewhere;
 \* register 10+i remembers that deviation i was caught, the postcondition demands all of them
 MutList == <<"partial_at_refill", "split_on_cr", "drop_last", "dup", "claim_unlimited",
-             "lose_at_cut", "prefix_any", "hdr_eof_clean">>
+             "lose_at_cut", "prefix_any", "hdr_eof_clean", "read_on_after_error">>
 MutIdx(m) == CHOOSE i \in 1..Len(MutList) : MutList[i] = m
 ASSUME \A i \in 1..Len(MutList) : TLCSet(10 + i, 0)
-NoteCaught == (Mutant # "" /\ ~(LineBody /\ FrameBody)) => TLCSet(10 + MutIdx(Mutant), 1)
+\* "read_on_after_error" counts as caught only where the finished connection's dispatch list is one
+\* of ReadOn (the lists the case generators name for that deviation) and AcceptableAt rejects it
+NoteCaught == (/\ Mutant # "" /\ ~(LineBody /\ FrameBody)
+               /\ Mutant = "read_on_after_error" => st = "done" /\ out \in ReadOn(stream, cut))
+              => TLCSet(10 + MutIdx(Mutant), 1)
 AllCaught == /\ PrintT("@@NV " \o ToJson([caught |-> {m \in Mutants \ {""} : TLCGet(10 + MutIdx(m)) = 1}]))
              /\ \A m \in Mutants \ {""} : TLCGet(10 + MutIdx(m)) = 1
 
